@@ -78,10 +78,10 @@ next_lb.attrs = ["#[verifier::exec_allows_no_decreases_clause]", "#[verifier::lo
 next_lb.inserts = []
 next_useful = Fn(FW, "next_useful_token", impl=WI, impl_header=WI, slot="syntax", ret="res", key="Walker::next_useful_token", props=["C05"],
     requires=[cw.INV_PRE], ensures=[C("the_first_useful_token_or_the_end_token", "res == self.tok(%s) && %s" % (UP, facts(UP)))])
-W["maybe_expect"].inserts = [Insert("let token = self.next_useful_token();", "proof { lemma_stream_head(*self, self.cursor_index as int, 0); let p = self.useful_pos(self.cursor_index as int); lemma_at(*self, self.step(p), self.step(p), 0); }\n        ", where="before")]
-W["next_useful_is"].inserts = [Insert("let token = self.next_nth_useful_token(nth);", "proof { lemma_stream_head(*self, self.cursor_index as int, 0); }\n        ", where="before")]
-W["maybe_expect_linebreak"].inserts = [Insert("if let Some(token) = self.next_linebreak()", "proof { lemma_stream_head(*self, self.cursor_index as int, 0); lemma_stream_lb(*self, self.cursor_index as int, 0);"
-    " let q = self.lb_pos(self.cursor_index as int); lemma_stream_lbs(*self, self.step(q), 0); let s0 = self.stream_from(self.step(q), 0); assert(dec_lb(inc_lb(s0)) =~= s0); lemma_at(*self, self.step(q), self.step(q), 0); lemma_at(*self, self.cursor_limit as int, self.cursor_limit as int, 0); }\n\t\t", where="before")]
+W["maybe_expect"].inserts = [Insert("{", "\n        proof { lemma_stream_head(*self, self.cursor_index as int, 0); let p = self.useful_pos(self.cursor_index as int); lemma_at(*self, self.step(p), self.step(p), 0); }\n", where="after", occ=1)]
+W["next_useful_is"].inserts = [Insert("{", "\n        proof { lemma_stream_head(*self, self.cursor_index as int, 0); }\n", where="after", occ=1)]
+W["maybe_expect_linebreak"].inserts = [Insert("{", "\n        proof { lemma_stream_head(*self, self.cursor_index as int, 0); lemma_stream_lb(*self, self.cursor_index as int, 0);"
+    " let q = self.lb_pos(self.cursor_index as int); lemma_stream_lbs(*self, self.step(q), 0); let s0 = self.stream_from(self.step(q), 0); assert(dec_lb(inc_lb(s0)) =~= s0); lemma_at(*self, self.step(q), self.step(q), 0); lemma_at(*self, self.cursor_limit as int, self.cursor_limit as int, 0); }\n", where="after", occ=1)]
 for k in W:
     W[k].rewrites = list(W[k].rewrites) + [Rewrite("syntax::TokenKind::", "TokenKind::", count=None, rule="R6", why="module path")]
 
